@@ -39,6 +39,8 @@ func init() {
 				return c17BBSNameScenario(args)
 			case 12: // whole start-ups (time zone, linked table paths), then conversions (fresh process only; c17start.go)
 				return c17StartScenario(args)
+			case 13: // the conversions from several goroutines of one process at once (c17conc.go)
+				return c17Concurrent(args)
 			}
 			return []string{"9"}
 		},
